@@ -96,7 +96,10 @@ def gen_field_case(rng):
     else:
         f = float(10.0 ** rng.uniform(-9, 9))
     return {"type": "field", "source": s, "observers": P.tolist(), "kinds": kinds, "scale": f, "mode": mode,
-            "excitation": float(10.0 ** rng.uniform(-12, 12)) if rng.random() < 0.3 else 1.0}
+            # the ends of the stated range (1e-12, 1e12) are drawn on purpose: absolute thresholds on an excitation
+            # component bite there first
+            "excitation": (float(10.0 ** int(rng.choice([-12, -12, -9, -6, -3, 3, 6, 9, 12, 12]))) if rng.random() < 0.5
+                           else float(10.0 ** rng.uniform(-12, 12))) if rng.random() < 0.3 else 1.0}
 
 
 def fields(spec, P):
